@@ -122,9 +122,10 @@ def ipow (d : Nat) : Nat → Nat
   | 0 => 1
   | n + 1 => d * ipow d n
 
-/-- `from_vector` keeps a dummy bond of dimension 1 (index 0) when every singular value is discarded (zero vector):
-`if len(idx) == 0 and len(s) > 0: idx = np.array([0])` -/
-def fvKeep {ρ : Type} (idx0 : List Nat) (s : List ρ) : List Nat := if idx0.isEmpty && !s.isEmpty then [0] else idx0
+/-- `from_vector` keeps a dummy bond of dimension 1 (index 0) when every singular value is zero (zero vector):
+`if len(idx) == 0 and len(s) > 0 and not np.any(s): idx = np.array([0])` -/
+def fvKeep {ρ : Type} [OfNat ρ 0] [DecidableEq ρ] (idx0 : List Nat) (s : List ρ) : List Nat :=
+  if idx0.isEmpty && !s.isEmpty && s.all (fun x => decide (x = 0)) then [0] else idx0
 
 /-- loop of `MPS.from_vector`: `v` is the current `(Dleft, d^(n-i))` matrix. -/
 def fromVectorLoop (k : SvdKernels α ρ) (d : Nat) : Nat → Mat α → ρ → Except Err (List (T3 α) × Mat α)
